@@ -1,3 +1,127 @@
 (* C19 — Merge bases and ancestor specs resolve as the commit graph dictates.  Property theorems only. *)
 From Coq Require Import List Arith Bool NArith.
-From Dolt Require Import Graph.CommitDag C18.Model C19.Model C19.Spec C19.Corr.
+From Dolt Require Import Graph.CommitDag Graph.CommitDagFacts C18.Model C18.Proofs C19.Model C19.Spec C19.Corr C19.Proofs.
+Import ListNotations.
+
+(* In all statements: [rank] is the byte order of commit addresses (injective:
+   distinct commits have distinct addresses), [h] any well-formed history,
+   [store_of rank h] the commit store the code reads, [height rank h] the stored
+   heights (= longest parent path, C18_height_spec). *)
+
+(* FindCommonAncestor always terminates; its result is a common ancestor-or-self of both commits ... *)
+Theorem C19_mb_common :
+  forall rank, (forall a b, rank a = rank b -> a = b) -> forall h, wf_hist h ->
+  forall c1 c2 m, c1 < length h -> c2 < length h ->
+    find_common_ancestor rank (store_of rank h) c1 c2 = Some (Some m) -> ancs h m c1 /\ ancs h m c2.
+Proof. exact mb_common. Qed.
+Print Assumptions C19_mb_common.
+
+(* ... no common ancestor is higher ... *)
+Theorem C19_mb_maximal :
+  forall rank, (forall a b, rank a = rank b -> a = b) -> forall h, wf_hist h ->
+  forall c1 c2 m, c1 < length h -> c2 < length h ->
+    find_common_ancestor rank (store_of rank h) c1 c2 = Some (Some m) ->
+    forall x, ancs h x c1 -> ancs h x c2 -> height rank h x <= height rank h m.
+Proof. exact mb_maximal. Qed.
+Print Assumptions C19_mb_maximal.
+
+(* ... the choice is independent of the argument order ... *)
+Theorem C19_mb_sym :
+  forall rank, (forall a b, rank a = rank b -> a = b) -> forall h, wf_hist h ->
+  forall c1 c2, c1 < length h -> c2 < length h ->
+    find_common_ancestor rank (store_of rank h) c1 c2 = find_common_ancestor rank (store_of rank h) c2 c1.
+Proof. exact mb_sym. Qed.
+Print Assumptions C19_mb_sym.
+
+(* ... and no base is returned exactly when none exists (never an error / non-termination). *)
+Theorem C19_mb_none_iff :
+  forall rank, (forall a b, rank a = rank b -> a = b) -> forall h, wf_hist h ->
+  forall c1 c2, c1 < length h -> c2 < length h ->
+    (find_common_ancestor rank (store_of rank h) c1 c2 = Some None <-> forall x, ~ (ancs h x c1 /\ ancs h x c2)).
+Proof. exact mb_none_iff. Qed.
+Print Assumptions C19_mb_none_iff.
+
+Theorem C19_mb_total :
+  forall rank, (forall a b, rank a = rank b -> a = b) -> forall h, wf_hist h ->
+  forall c1 c2, c1 < length h -> c2 < length h ->
+    exists r, find_common_ancestor rank (store_of rank h) c1 c2 = Some r /\ mb_spec rank h c1 c2 r.
+Proof. exact fca_total. Qed.
+Print Assumptions C19_mb_total.
+
+(* Determinism: each walk returns the unique optimum of a total order on the set
+   of common ancestors — closure walk: greatest (height, address); parents walk:
+   greatest height, then least address. *)
+Theorem C19_mb_closure_spec :
+  forall rank, (forall a b, rank a = rank b -> a = b) -> forall h, wf_hist h ->
+  forall c1 c2,
+    match mb_closure rank (store_of rank h) c1 c2 with
+    | Some m => best_closure rank h c1 c2 m
+    | None => forall x, ~ common h c1 c2 x
+    end.
+Proof. exact mb_closure_spec. Qed.
+Print Assumptions C19_mb_closure_spec.
+
+Theorem C19_mb_parents_spec :
+  forall rank h, wf_hist h ->
+  forall c1 c2, c1 < length h -> c2 < length h ->
+    exists r, mb_parents rank (store_of rank h) c1 c2 = Some r /\ parents_res rank h c1 c2 r.
+Proof. exact mb_parents_spec. Qed.
+Print Assumptions C19_mb_parents_spec.
+
+Theorem C19_mb_closure_sym :
+  forall rank, (forall a b, rank a = rank b -> a = b) -> forall h, wf_hist h ->
+  forall c1 c2, mb_closure rank (store_of rank h) c1 c2 = mb_closure rank (store_of rank h) c2 c1.
+Proof. exact mb_closure_sym. Qed.
+Print Assumptions C19_mb_closure_sym.
+
+Theorem C19_mb_parents_sym :
+  forall rank, (forall a b, rank a = rank b -> a = b) -> forall h, wf_hist h ->
+  forall c1 c2, c1 < length h -> c2 < length h ->
+    mb_parents rank (store_of rank h) c1 c2 = mb_parents rank (store_of rank h) c2 c1.
+Proof. exact mb_parents_sym. Qed.
+Print Assumptions C19_mb_parents_sym.
+
+(* Walking an instruction list is iterated parent selection; it fails exactly
+   when a parent index is out of range. *)
+Theorem C19_spec_walk :
+  forall rank h, wf_hist h -> forall c insts,
+    (forall d, walk (store_of rank h) c insts = Some d <-> path h c insts d) /\
+    (walk (store_of rank h) c insts = None <-> walk_stuck h c insts).
+Proof. exact spec_walk_thm. Qed.
+Print Assumptions C19_spec_walk.
+
+Theorem C19_walk_app :
+  forall rank h c a b,
+    walk (store_of rank h) c (a ++ b) =
+    match walk (store_of rank h) c a with Some m => walk (store_of rank h) m b | None => None end.
+Proof. exact walk_app. Qed.
+Print Assumptions C19_walk_app.
+
+Theorem C19_walk_repeat_first_parent :
+  forall rank h, wf_hist h -> forall c n,
+    walk (store_of rank h) c (repeat 0 n) = Nat.iter n (first_parent h) (Some c).
+Proof. exact walk_repeat_first_parent. Qed.
+Print Assumptions C19_walk_repeat_first_parent.
+
+(* CanFastForwardTo: (true, ErrUpToDate) iff equal; (true, nil) iff the head is a
+   proper ancestor of the target; (false, ErrIsAhead) iff the target is a proper
+   ancestor of the head; error iff no common ancestor; (false, nil) otherwise. *)
+Theorem C19_can_ff_spec :
+  forall rank, (forall a b, rank a = rank b -> a = b) -> forall h, wf_hist h ->
+  forall c new, c < length h -> new < length h ->
+    (can_ff rank (store_of rank h) c new = FF_uptodate <-> c = new) /\
+    (can_ff rank (store_of rank h) c new = FF_ok <-> anc h c new) /\
+    (can_ff rank (store_of rank h) c new = FF_ahead <-> anc h new c) /\
+    (can_ff rank (store_of rank h) c new = FF_noancestor <-> forall x, ~ common h c new x) /\
+    (can_ff rank (store_of rank h) c new = FF_diverged <->
+       ~ ancs h c new /\ ~ ancs h new c /\ exists x, common h c new x) /\
+    can_ff rank (store_of rank h) c new <> FF_fuel.
+Proof. exact can_ff_spec. Qed.
+Print Assumptions C19_can_ff_spec.
+
+Theorem C19_can_ff_true_iff :
+  forall rank, (forall a b, rank a = rank b -> a = b) -> forall h, wf_hist h ->
+  forall c new, c < length h -> new < length h ->
+    (can_ff rank (store_of rank h) c new = FF_ok \/ can_ff rank (store_of rank h) c new = FF_uptodate) <-> ancs h c new.
+Proof. exact can_ff_true_iff. Qed.
+Print Assumptions C19_can_ff_true_iff.
